@@ -11,17 +11,17 @@ TECH = "bounded symbolic execution of the real Rust source (Kani 0.68 proof harn
 CLAIMS = {
  "C01": ("Deterministic clauses only: for every estimator state within the per-harness bounds CBMC decides lower_bound(s) <= estimate <= upper_bound(s) and nesting in s for HLL (HIP path for any accumulator value, coupon mode for any interpolation value, the real error tables / formula for every lg_k 4..=21: sign, nesting, out-of-order interval at least as wide as the in-order one, advertised RSE constants sqrt(ln 2 / k) and sqrt((3 ln 2 - 1) / k) on the analytic branch), CPC (HIP and ICON confidence bounds, error tables) and theta/compact theta (clamping holds for every value of the binomial approximation; exact mode equals the retained count), and that a sampling theta sketch that was offered data is not reported empty. Bias, empirical RSE, coverage rates and the values of the fitted tables are statistical and NOT claimed.",
          "Transcendental functions and the binomial approximations are over-approximated by arbitrary values (sound for the universally quantified ordering); float arithmetic is CBMC's IEEE-754 model; one concrete (lg_k, sigma) per float harness.", "DESIGN.md section 4 C01"),
- "C02": ("One update step of every HLL representation (list, hash set 8/16 slots, Array4 with <= 2 exceptions incl. the cur_min shift, Array6, Array8, aux map) from an arbitrary representation-invariant-satisfying state at lg_k = 4, the promotions list->set and list->array, and the coupon derivation, each compared with the per-slot-maximum / coupon-set model for all symbolic inputs within the bounds.",
+ "C02": ("Quick tier: one update step of every HLL representation (list, 8-slot hash set, Array6, Array8, aux map incl. growth; Array4 with the exception slots concrete per instance - none, one, two colliding - and symbolic nibbles, cur_min and values; one cur_min shift with one exception) from an arbitrary representation-invariant-satisfying state at lg_k = 4, the mode life cycle list -> set / array for every lg_k, coupon derivation and packing laws, estimator update, each compared with the per-slot-maximum / coupon-set model for all symbolic inputs within the bounds. Thorough tier adds the 16-slot set, every aux-table layout, shifts with 0 / 2 exceptions and the list -> array / set promotions over histories of 8 symbolic coupons (10-14 GB, > 10 min each; reported UNEXPLORED when they exceed the caps).",
          "Representation invariants written in the harnesses are assumed inductive (each step re-establishes them); register state at lg_k = 4 only, index arithmetic for all lg_k; HipEstimator::update replaced by a call recorder in register-model harnesses.", "DESIGN.md section 4 C02"),
- "C03": ("Union kernels (same-lg_k merge, down-sampling merge, cached-value rebuild), the union of one array-mode input (Hll6 / Hll8) and of two array-mode inputs in both orders with all registers and out-of-order flags symbolic, to_sketch for the three target types (registers, lg_k, out-of-order flag and estimator state carried over) and reset(): compared with the register-wise-maximum model.",
-         "lg_k 2-4 (code is parametric), at most two inputs (longer sequences follow from the model being a commutative idempotent fold - argued, not solved); coupon-mode inputs covered through the C02 harnesses; HipEstimator::update / rebuild_cached_values replaced by recorders in register harnesses.", "DESIGN.md section 4 C03"),
+ "C03": ("Quick tier: union kernels (same-lg_k merge, down-sampling merge, cached-value rebuild), the union of one array-mode input (Hll6 / Hll8) with all registers and the out-of-order flag symbolic, reset(), estimator update: compared with the register-wise-maximum model. Thorough tier adds two array-mode inputs in both orders, to_sketch for the three target types and a coupon-mode input into an empty union (these need 10-14 GB and more than 10 min each; reported UNEXPLORED when they exceed the caps).",
+         "lg_k 2-4 (code is parametric), at most two inputs (longer sequences follow from the model being a commutative idempotent fold - argued, not solved); coupon-mode inputs are decided only in the thorough tier (on this machine: unexplored) - their coupon replay goes through the C02 harnesses; HipEstimator::update / rebuild_cached_values replaced by recorders in register harnesses.", "DESIGN.md section 4 C03"),
  "C04": ("ThetaHashTable steps (probe sequence, try_insert, resize, rebuild, trim, reset) from arbitrary valid tables at nominal size 2-4 with symbolic hashes and theta, the size arithmetic for every lg_k, hash_and_screen against the reference digest, and compact()/estimate on arbitrary small sketches.",
          "Table instantiated below the public minimum lg_k = 5 (code parametric in the sizes); std select_nth_unstable / sort_unstable replaced by reference insertion-sort models of their contracts.", "DESIGN.md section 4 C04"),
- "C05": ("Flavor / window-offset / pseudo-phase arithmetic against wide-integer specifications for every lg_k 4..=26 and every coupon count; PairTable insert/delete steps over every valid layout of 4/8 slots; one CpcSketch update from an arbitrary windowed state at lg_k = 4 and a 3-step history from empty, each compared with the bit-matrix model.",
-         "Sketch state at lg_k = 4 with <= 2 surprising values; the window-moving step is in the thorough tier only.", "DESIGN.md section 4 C05"),
- "C06": ("The three OR kernels of the CPC union with row folding (symbolic matrices, window, offset and table), the golden-ratio table walk stride for every table size, CpcUnion::update for Sparse inputs into the accumulator (same lg_k, larger lg_k first into an empty union, larger lg_k second, reduce_k of a non-empty accumulator) and for Sparse / Hybrid / Pinned / Sliding inputs into a bit-matrix union, and to_sketch() from a bit matrix at window offsets 0 and 1: the result denotes exactly the OR of the inputs' matrices folded to the smallest lg_k, with the coupon count its population count.",
-         "lg_k 4-6; table layouts of the Sparse inputs concrete per instance (coupon's home slot fixed, all other bits symbolic); CpcSketch::update_hip cut (float HIP accumulators are not read by the union); histories through the public update path need more than 14 GB and are thorough-tier only; more than two inputs follow from associativity of OR (argued).", "DESIGN.md section 4 C06"),
- "C07": ("ReversePurgeItemHashMap adjust / back-shift delete / purge steps over every valid 8-slot layout with symbolic home slots against an abstract map, and - compositionally, with the map operations replaced by those contracts - FrequentItemsSketch update_with_count in every state, merge, purge amortisation and frequent_items with ghost true counts for every key of the domain: bracket lb <= t <= lb + offset, exact total weight, 3*offset + sum(counters) <= N (error bound N/3 <= epsilon*N), capacity.",
+ "C05": ("Quick tier: flavor / window-offset / pseudo-phase arithmetic against wide-integer specifications for every lg_k 4..=26 and every coupon count; bit counting; PairTable insert / delete steps over every valid layout of 4/8 slots and get_items; row/column derivation from the hash. Thorough tier adds one CpcSketch update from an arbitrary windowed state at lg_k = 4 (one instance per window offset), a 3-step history from empty and the flavor round trips (each more than 20 min on this machine; reported UNEXPLORED when they exceed the caps).",
+         "Sketch state at lg_k = 4 with <= 2 surprising values; the window-moving step (move_window) is NOT decided in either tier (cut by a self-checking stub in the step harnesses).", "DESIGN.md section 4 C05"),
+ "C06": ("Quick tier: the three OR kernels of the CPC union with row folding (symbolic matrices, window, offset and table), the golden-ratio table walk stride for every table size, the first update of a fresh union with a Sparse sketch (same, larger and smaller lg_k: lg_k, coupon count, folded coupon), and Hybrid / Pinned / Sliding inputs into a bit-matrix union: the union's matrix is the OR of the matrix the input denotes. Thorough tier adds two Sparse inputs (reduce_k of a non-empty accumulator), Sparse / Sliding-offset-3 inputs into a matrix, to_sketch() from a bit matrix and histories through the public update path (13 GB and more; reported UNEXPLORED when they exceed the caps).",
+         "lg_k 4-6; table layouts of the Sparse inputs concrete per instance (coupon's home slot fixed, all other bits symbolic); CpcSketch::update_hip cut (float HIP accumulators are not read by the union); more than two inputs follow from associativity of OR (argued).", "DESIGN.md section 4 C06"),
+ "C07": ("Quick tier: ReversePurgeItemHashMap::adjust_or_put_value over every valid 8-slot layout with symbolic home slots against an abstract map; FrequentItemsSketch update_with_count in every state and the update-side amortisation over the abstract map (map operations replaced by their contracts), with ghost true counts for every key of the domain: bracket lb <= t <= lb + offset, exact total weight, 3*offset + sum(counters) <= N (error bound N/3 <= epsilon*N), capacity; capacity / epsilon arithmetic for every map size; round trip of the never-updated and the fully purged sketch. Thorough tier adds back-shift delete and purge on the real map (every layout), merge (abstract map), the purge-side amortisation and frequent_items (6-14 min each).",
          "Real map size 8, u64 items, key domain 8, weights < 2^58 (8-bit in the amortisation harnesses); hash_item replaced by an arbitrary symbolic function of the key; std select_nth_unstable replaced by a reference model; sketch-level harnesses run over the abstract map (contracts proven by the map harnesses); merge trees follow from the additive invariant (argued).", "DESIGN.md section 4 C07"),
  "C08": ("One update / merge / halve / decay step of CountMinSketch for the 8 counter types from an arbitrary valid 2x3 table: table equals the model, one-sided guarantee for the updated item and a bystander via ghost true counts, estimate <= total; row seeds and entry arithmetic against reference derivations.",
          "2x3 table; hash inputs concrete (constant-folded real MurmurHash) while table, weights and ghost counts are symbolic; decay factors concrete; the confidence (fraction) clause is statistical and not claimed.", "DESIGN.md section 4 C08"),
@@ -79,7 +79,7 @@ def main():
         "setup_cmd": "true",
         "hooks": {
             "guard": "cfg(kani) in a scratch overlay copy of /repo/datasketches/src (no hook is committed to /repo)",
-            "enable": "each check copies /repo/datasketches/src to /var/tmp/dsverif.*/ds, appends '#[cfg(kani)] #[path=...] mod verif_kani_*;' lines to the copies and runs cargo kani there",
+            "enable": "each check copies /repo/datasketches/src to /var/tmp/dsverif.*/ds, appends '#[cfg(kani)] #[path=...] mod verif_kani_*;' lines to the copies, rewrites closures that ignore a failed read's error to forget it under cfg(kani) (DESIGN 2.3), and runs cargo kani there",
             "baseline_off_cmd": "cd /repo && cargo test --workspace --no-fail-fast --offline",
             "source_commits": [],
             "add_only": True,
